@@ -35,7 +35,8 @@ EXTENDS Naturals, Integers, Sequences, FiniteSets, TLC
 
 CONSTANTS Scenarios,   \* sequence of [file |-> template, delim |-> delimiter set id]
           MaxLen,      \* a line never grows beyond MaxLen fields (arrays longer than the template)
-          MaxDepth     \* number of operations per behaviour
+          MaxDepth,    \* number of operations per behaviour
+          WrapRows     \* set of line counts (>= 2) of the wrapped (multi-line) arrays that are explored
 
 AnchorIds == {1, 2}
 Occs == {1, 2, -1, -2}
@@ -57,6 +58,14 @@ Exists(f, c, row, field) == (c + row) \in 1..Len(f) /\ field \in 1..Len(f[c + ro
 
 Has(line, a) == \E j \in 1..Len(line) : line[j] = a
 ARows(f, a) == {i \in 1..Len(f) : Has(f[i], a)}
+
+\* what FileParser.transfer_array(r1, fs, r2, fe) returns (absolute lines): the fields fs.. of line r1,
+\* every field of the lines in between, the fields ..fe of line r2 (fs..fe of the line when r1 = r2)
+ReadArray(f, r1, r2, fs, fe) ==
+    LET R[i \in (r1 - 1)..r2] ==
+            IF i = r1 - 1 THEN <<>>
+            ELSE R[i - 1] \o SubSeq(f[i], IF i = r1 THEN fs ELSE 1, IF i = r2 THEN fe ELSE Len(f[i]))
+    IN R[r2]
 
 NthUp(S, k) == IF Cardinality(S) < k THEN 0
                ELSE CHOOSE x \in S : Cardinality({y \in S : y < x}) = k - 1
@@ -83,7 +92,8 @@ Splice(line, fs, fe, vals) ==
                        ELSE IF j <= Len(line) THEN line[j]
                        ELSE vals[k + (j - Len(line))]]
 
-Obs(r, k, w, clr, an, occ) == [r |-> r, k |-> k, w |-> w, clr |-> clr, an |-> an, occ |-> occ]
+\* arr: the arguments of a transfer_array call <<vals, first line, last line, fs, fe>> (absolute lines)
+Obs(r, k, w, clr, an, occ) == [r |-> r, k |-> k, w |-> w, clr |-> clr, an |-> an, occ |-> occ, arr |-> <<>>]
 
 Init == /\ sc \in 1..Len(Scenarios)
         /\ file = Scenarios[sc].file
@@ -115,20 +125,48 @@ TransferVar(v, row, f) ==
     /\ UNCHANGED <<cur, anch>>
     /\ last' = Obs("ok", "TransferVar", {<<cur + row, f, v>>}, 0, 0, 0)
 
-\* vals go to fields fs..fe of one line.  An array longer than fe-fs+1 is allowed where the field
-\* range ends the line (the surplus values are appended there, so the array stays contiguous).
-\* A shorter array is refused by the generator and is not part of this specification.
-TransferArray(vals, row, fs, fe) ==
+\* A one-dimensional array that may wrap over the lines rs..re (offsets from the anchor line; re = rs
+\* is the plain single-line call, a larger re is the row_end argument): the values go, in order, to
+\* the fields fs..end of line rs, to every field of the lines in between and to the fields 1..fe of
+\* line re (fs..fe when rs = re).  FileParser.transfer_array(rs, fs, re, fe) reads exactly this
+\* sequence of locations.  A line without fields (cleared) in the range holds no value.
+\* An array longer than the location sequence is allowed where field fe ends line re (the surplus
+\* values are appended there, so the array stays contiguous).  A shorter array is refused by the
+\* generator and is not part of this specification.
+ALo(i, r1, fs) == IF i = r1 THEN fs ELSE 1
+AHi(f, i, r2, fe) == IF i = r2 THEN fe ELSE Len(f[i])
+\* number of array locations on the lines r1..i-1 of f
+ABefore(f, r1, r2, fs, fe) ==
+    LET B[i \in r1..(r2 + 1)] ==
+            IF i = r1 THEN 0 ELSE B[i - 1] + (AHi(f, i - 1, r2, fe) - ALo(i - 1, r1, fs) + 1)
+    IN B
+ACount(f, r1, r2, fs, fe) == ABefore(f, r1, r2, fs, fe)[r2 + 1]
+\* the part of vals that belongs to line i (the last line also takes the surplus)
+ASeg(f, vals, r1, r2, fs, fe, i) ==
+    LET B == ABefore(f, r1, r2, fs, fe)
+    IN SubSeq(vals, B[i] + 1, IF i = r2 THEN Len(vals) ELSE B[i + 1])
+
+TransferArray(vals, rs, re, fs, fe) ==
     /\ Step
-    /\ (cur + row) \in 1..Len(file)
-    /\ LET line == file[cur + row]
-           k == fe - fs + 1
-       IN /\ 1 <= fs /\ fs <= fe /\ fe <= Len(line)
-          /\ Len(vals) >= k
-          /\ Len(vals) > k => (fe = Len(line) /\ Len(line) + Len(vals) - k <= MaxLen)
-          /\ file' = [file EXCEPT ![cur + row] = Splice(line, fs, fe, vals)]
-          /\ last' = Obs("ok", "TransferArray",
-                         {<<cur + row, fs + i - 1, vals[i]>> : i \in 1..Len(vals)}, 0, 0, 0)
+    /\ rs <= re
+    /\ (cur + rs) \in 1..Len(file) /\ (cur + re) \in 1..Len(file)
+    /\ LET r1 == cur + rs
+           r2 == cur + re
+           total == ACount(file, r1, r2, fs, fe)
+       IN /\ 1 <= fs /\ fs <= Len(file[r1])
+          /\ 1 <= fe /\ fe <= Len(file[r2])
+          /\ (r1 = r2 => fs <= fe)
+          /\ Len(vals) >= total
+          /\ Len(vals) > total => (fe = Len(file[r2]) /\ Len(file[r2]) + Len(vals) - total <= MaxLen)
+          /\ file' = [i \in 1..Len(file) |->
+                        IF i \in r1..r2
+                        THEN Splice(file[i], ALo(i, r1, fs), AHi(file, i, r2, fe),
+                                    ASeg(file, vals, r1, r2, fs, fe, i))
+                        ELSE file[i]]
+          /\ last' = [Obs("ok", "TransferArray",
+                          UNION {{<<i, ALo(i, r1, fs) + j - 1, ASeg(file, vals, r1, r2, fs, fe, i)[j]>> :
+                                    j \in 1..Len(ASeg(file, vals, r1, r2, fs, fe, i))} : i \in r1..r2},
+                          0, 0, 0) EXCEPT !.arr = <<vals, r1, r2, fs, fe>>]
     /\ UNCHANGED <<cur, anch>>
 
 \* vals is a matrix (sequence of rows) of exactly (re-rs+1) x (fe-fs+1) values
@@ -157,6 +195,7 @@ ClearLine(row) ==
 Rows == -3..3
 Fields == 1..MaxLen
 Arrays == {<<101, 102>>, <<101, 102, 103>>}
+Cyc(k) == [i \in 1..k |-> 101 + ((i - 1) % 3)]       \* 101, 102, 103, 101, ... (k values)
 Matrix(nr, nc) == [i \in 1..nr |-> SubSeq(IF i = 1 THEN <<101, 102, 103, 101, 102>>
                                           ELSE IF i = 2 THEN <<103, 101, 102, 103, 101>>
                                           ELSE <<102, 103, 101, 102, 103>>, 1, nc)]
@@ -165,7 +204,12 @@ Next ==
     \/ \E a \in AnchorIds, occ \in Occs : MarkAnchor(a, occ)
     \/ ResetAnchor
     \/ \E v \in {101, 102}, row \in Rows, f \in Fields : TransferVar(v, row, f)
-    \/ \E vals \in Arrays, row \in Rows, fs \in Fields, fe \in Fields : TransferArray(vals, row, fs, fe)
+    \/ \E vals \in Arrays, row \in Rows, fs \in Fields, fe \in Fields : TransferArray(vals, row, row, fs, fe)
+    \* wrapped arrays: as many values as there are locations, or one more (appended to the last line)
+    \/ \E row \in Rows, nr \in WrapRows, fs \in Fields, fe \in Fields, extra \in 0..1 :
+          /\ (cur + row) \in 1..Len(file) /\ (cur + row + nr - 1) \in 1..Len(file)
+          /\ TransferArray(Cyc(ACount(file, cur + row, cur + row + nr - 1, fs, fe) + extra),
+                           row, row + nr - 1, fs, fe)
     \/ \E rs \in Rows, nr \in 2..3, fs \in Fields, fe \in Fields :
           Transfer2DArray(Matrix(nr, fe - fs + 1), rs, rs + nr - 1, fs, fe)
     \/ \E row \in Rows : ClearLine(row)
@@ -187,6 +231,20 @@ ReadBack ==
          \A x \in last'.w : /\ Exists(file', 0, x[1], x[2])
                             /\ Read(file', 0, x[1], x[2]) = x[3]
                             /\ Read(file', cur, x[1] - cur, x[2]) = x[3]]_vars
+
+\* a wrapped or plain array is read back, as a whole and in order, by the reader's transfer_array with the
+\* same rows and fields (the last field moved by the number of appended values)
+ArrayReadBack ==
+    [][last'.k = "TransferArray" /\ last'.r = "ok" =>
+         LET vals == last'.arr[1]
+             r1 == last'.arr[2]
+             r2 == last'.arr[3]
+             fs == last'.arr[4]
+             fe == last'.arr[5]
+             surplus == Len(vals) - ACount(file, r1, r2, fs, fe)
+         IN /\ surplus >= 0
+            /\ ReadArray(file', r1, r2, fs, fe + surplus) = vals
+            /\ Cardinality(last'.w) = Len(vals)]_vars
 
 \* every field that was not addressed still holds what it held; lines keep their number and
 \* (apart from appended array values and a cleared line) their length
